@@ -125,6 +125,14 @@ func (x *Exec) emptyCond(op syntax.EmptyOp, s Str, pos int) *smt.Term {
 }
 
 func (x *Exec) decodings(st *State, s Str, pos int, ascii bool) []Decoded {
+	if s.R != nil {
+		for i, off := range s.R.Off[:len(s.R.Runes)] {
+			if off == pos {
+				return []Decoded{{Cond: smt.True, Rune: s.R.Runes[i], Width: s.R.Off[i+1] - off}}
+			}
+		}
+		return nil // not a rune boundary
+	}
 	if ascii {
 		return []Decoded{{Cond: smt.True, Rune: x.Ctx.Zext(s.B[pos], 32), Width: 1}}
 	}
@@ -219,9 +227,64 @@ type rxResult struct {
 	Caps []int // byte offsets, -1 = unset; nil = no match
 }
 
+// box is a cheap over-approximation of a conjunction of constraints: per input byte a
+// set of allowed values, plus a flag for constraints that are not unary.
+type box struct {
+	sets   map[int]smt.Set256
+	others bool
+}
+
+func (b box) clone() box {
+	n := box{sets: make(map[int]smt.Set256, len(b.sets)+1), others: b.others}
+	for k, v := range b.sets {
+		n.sets[k] = v
+	}
+	return n
+}
+
+// add intersects the box with cond; it returns false if the box became empty.
+func (b *box) add(c *smt.Ctx, cond *smt.Term) bool {
+	if cond.IsConst() {
+		return cond.Val == 1
+	}
+	if cond.Op == smt.OpAnd {
+		return b.add(c, cond.A[0]) && b.add(c, cond.A[1])
+	}
+	if v, set, ok := c.Table(cond); ok {
+		cur, has := b.sets[v]
+		if !has {
+			cur = smt.FullSet
+		}
+		cur = cur.And(set)
+		b.sets[v] = cur
+		return !cur.Empty()
+	}
+	b.others = true
+	return true
+}
+
+// within reports whether b is contained in a (both without non-unary parts).
+func (b box) within(a box) bool {
+	if a.others {
+		return false
+	}
+	for v, as := range a.sets {
+		bs, has := b.sets[v]
+		if !has {
+			bs = smt.FullSet
+		}
+		if !bs.SubsetOf(as) {
+			return false
+		}
+	}
+	return true
+}
+
 // rxFind performs a leftmost-first search (Go regexp semantics) starting the scan at
 // byte offset from. Results are mutually exclusive; the last one (Caps == nil) is
-// "no match" when feasible.
+// "no match". Infeasible results may be included (the caller's fork prunes them);
+// threads are pruned with the box domain and, when constraints over several bytes are
+// involved (multi-byte UTF-8), with the solver.
 func (x *Exec) rxFind(st *State, rx *compiledRx, s Str, from int) []rxResult {
 	c := x.Ctx
 	prog := rx.Prog
@@ -229,14 +292,14 @@ func (x *Exec) rxFind(st *State, rx *compiledRx, s Str, from int) []rxResult {
 	ascii := x.allASCII(st, s)
 	ncap := 2 * (rx.NumCap + 1)
 	var results []rxResult
+	var matched []box
 	notEarlier := smt.True
-	budget := 200000
-	// boundary conditions, as in rxMatches (search may only start at rune boundaries)
+	budget := 400000
 	boundary := make([]*smt.Term, n+2)
 	for i := range boundary {
 		boundary[i] = smt.False
 	}
-	boundary[from] = smt.True // callers pass offsets that are boundaries
+	boundary[from] = smt.True // callers pass offsets that are rune boundaries
 	for pos := from; pos < n; pos++ {
 		if boundary[pos] == smt.False {
 			continue
@@ -247,28 +310,33 @@ func (x *Exec) rxFind(st *State, rx *compiledRx, s Str, from int) []rxResult {
 			}
 		}
 	}
-	feasible := func(cond *smt.Term) bool {
-		full := c.And(cond, notEarlier)
-		if full == smt.False {
-			return false
+	base := box{sets: map[int]smt.Set256{}}
+	for _, p := range st.PC {
+		if v, set, ok := c.Table(p); ok {
+			cur, has := base.sets[v]
+			if !has {
+				cur = smt.FullSet
+			}
+			base.sets[v] = cur.And(set)
 		}
-		if full.IsConst() {
-			return true
-		}
-		if x.Concrete {
-			return false
-		}
-		ok, _ := x.feasible(st, full)
-		return ok
 	}
-	var dfs func(pc uint32, pos int, caps []int, cond *smt.Term, onPath map[[2]int]bool)
-	dfs = func(pc uint32, pos int, caps []int, cond *smt.Term, onPath map[[2]int]bool) {
+	// alive decides whether a thread with condition cond (box bx) can still matter.
+	alive := func(cond *smt.Term, bx box) bool {
+		if cond == smt.False {
+			return false
+		}
+		for _, m := range matched {
+			if bx.within(m) {
+				return false // an earlier thread matches whenever this one would
+			}
+		}
+		return true
+	}
+	var dfs func(pc uint32, pos int, caps []int, cond *smt.Term, bx box, onPath map[[2]int]bool)
+	dfs = func(pc uint32, pos int, caps []int, cond *smt.Term, bx box, onPath map[[2]int]bool) {
 		budget--
 		if budget < 0 {
 			unsupported("regexp search budget exhausted for %q", rx.Pattern)
-		}
-		if cond == smt.False {
-			return
 		}
 		key := [2]int{int(pc), pos}
 		if onPath[key] {
@@ -279,11 +347,13 @@ func (x *Exec) rxFind(st *State, rx *compiledRx, s Str, from int) []rxResult {
 		case syntax.InstFail:
 			return
 		case syntax.InstMatch:
-			if !feasible(cond) {
+			full := c.And(cond, notEarlier)
+			if full == smt.False {
 				return
 			}
-			results = append(results, rxResult{Cond: c.And(cond, notEarlier), Caps: append([]int(nil), caps...)})
+			results = append(results, rxResult{Cond: full, Caps: append([]int(nil), caps...)})
 			notEarlier = c.And(notEarlier, c.Not(cond))
+			matched = append(matched, bx)
 			return
 		case syntax.InstRune, syntax.InstRune1, syntax.InstRuneAny, syntax.InstRuneAnyNotNL:
 			if pos >= n {
@@ -293,31 +363,42 @@ func (x *Exec) rxFind(st *State, rx *compiledRx, s Str, from int) []rxResult {
 				if pos+d.Width > n {
 					continue
 				}
-				nc := c.AndN(cond, d.Cond, x.runeMatch(i, d.Rune))
-				if !feasible(nc) {
+				step := c.And(d.Cond, x.runeMatch(i, d.Rune))
+				nb := bx.clone()
+				if !nb.add(c, step) {
 					continue
 				}
-				dfs(i.Out, pos+d.Width, caps, nc, map[[2]int]bool{})
+				nc := c.And(cond, step)
+				if !alive(nc, nb) {
+					continue
+				}
+				dfs(i.Out, pos+d.Width, caps, nc, nb, map[[2]int]bool{})
 			}
 			return
 		}
 		onPath[key] = true
 		switch i.Op {
 		case syntax.InstAlt, syntax.InstAltMatch:
-			dfs(i.Out, pos, caps, cond, onPath)
-			dfs(i.Arg, pos, caps, cond, onPath)
+			dfs(i.Out, pos, caps, cond, bx, onPath)
+			dfs(i.Arg, pos, caps, cond, bx, onPath)
 		case syntax.InstNop:
-			dfs(i.Out, pos, caps, cond, onPath)
+			dfs(i.Out, pos, caps, cond, bx, onPath)
 		case syntax.InstCapture:
 			if int(i.Arg) < len(caps) {
 				nc := append([]int(nil), caps...)
 				nc[i.Arg] = pos
-				dfs(i.Out, pos, nc, cond, onPath)
+				dfs(i.Out, pos, nc, cond, bx, onPath)
 			} else {
-				dfs(i.Out, pos, caps, cond, onPath)
+				dfs(i.Out, pos, caps, cond, bx, onPath)
 			}
 		case syntax.InstEmptyWidth:
-			dfs(i.Out, pos, caps, c.And(cond, x.emptyCond(syntax.EmptyOp(i.Arg), s, pos)), onPath)
+			e := x.emptyCond(syntax.EmptyOp(i.Arg), s, pos)
+			nb := bx.clone()
+			if nb.add(c, e) {
+				if nc := c.And(cond, e); alive(nc, nb) {
+					dfs(i.Out, pos, caps, nc, nb, onPath)
+				}
+			}
 		default:
 			unsupported("regexp instruction %v", i.Op)
 		}
@@ -331,19 +412,20 @@ func (x *Exec) rxFind(st *State, rx *compiledRx, s Str, from int) []rxResult {
 		if boundary[start] == smt.False {
 			continue
 		}
-		if !feasible(boundary[start]) {
+		sb := base.clone()
+		if !sb.add(c, boundary[start]) || !alive(boundary[start], sb) {
 			continue
 		}
 		caps := make([]int, ncap)
 		for i := range caps {
 			caps[i] = -1
 		}
-		dfs(uint32(prog.Start), start, caps, boundary[start], map[[2]int]bool{})
+		dfs(uint32(prog.Start), start, caps, boundary[start], sb, map[[2]int]bool{})
 		if notEarlier == smt.False {
 			break
 		}
 	}
-	if feasible(smt.True) {
+	if notEarlier != smt.False {
 		results = append(results, rxResult{Cond: notEarlier, Caps: nil})
 	}
 	return results
